@@ -13,6 +13,15 @@ from typing import Iterable
 from ..index import AnalysisError, Index, norm
 
 _EXAMPLE = '''
+class B:
+    def __init__(self, terms, n):
+        self.terms = terms
+    @classmethod
+    def from_op(cls, op):
+        return cls(op.terms, 3)
+    @classmethod
+    def from_op_ok(cls, op):
+        return cls(op.terms.copy(), 3)
 class A:
     @property
     def qubitoperator(self):
@@ -31,6 +40,31 @@ class A:
 
 def findings(tree: ast.AST):
     out = []
+    # constructors of this module that keep a parameter as their term dictionary: which parameter (position, name)
+    keeps = {}
+    for c in ast.walk(tree):
+        if isinstance(c, ast.ClassDef):
+            for m in c.body:
+                if isinstance(m, ast.FunctionDef) and m.name == "__init__":
+                    ps = [a.arg for a in m.args.args][1:]
+                    for n in ast.walk(m):
+                        if isinstance(n, ast.Assign) and len(n.targets) == 1 and norm(n.targets[0]) == "self.terms" and isinstance(n.value, ast.Name) and n.value.id in ps:
+                            keeps[c.name] = (ps.index(n.value.id), n.value.id)
+    for c in ast.walk(tree):
+        if isinstance(c, ast.ClassDef):
+            for m in ast.walk(c):
+                if not isinstance(m, (ast.FunctionDef, ast.AsyncFunctionDef)):
+                    continue
+                for call in ast.walk(m):
+                    if not isinstance(call, ast.Call):
+                        continue
+                    target = c.name if norm(call.func) == "cls" else (norm(call.func) if norm(call.func) in keeps else None)
+                    if target not in keeps:
+                        continue
+                    pos, pname = keeps[target]
+                    arg = call.args[pos] if pos < len(call.args) else next((k.value for k in call.keywords if k.arg == pname), None)
+                    if isinstance(arg, ast.Attribute) and arg.attr == "terms":
+                        out.append((m, call))
     for fn in ast.walk(tree):
         if not isinstance(fn, (ast.FunctionDef, ast.AsyncFunctionDef)):
             continue
@@ -44,7 +78,7 @@ def findings(tree: ast.AST):
 
 def check_terms_copied(idx: Index, rep, relpaths: Iterable[str], rule: str = "K2.terms-copied"):
     ex = findings(ast.parse(_EXAMPLE))
-    if [f.name for f, _ in ex] != ["qubitoperator"]:
+    if sorted(f.name for f, _ in ex) != ["from_op", "qubitoperator"]:
         raise AnalysisError(f"terms-copied rule self-check failed: built-in example reports {[f.name for f, _ in ex]}")
     n_sites = 0
     for rel in relpaths:
@@ -56,8 +90,8 @@ def check_terms_copied(idx: Index, rep, relpaths: Iterable[str], rule: str = "K2
         sites = sum(1 for fn in ast.walk(m.tree) if isinstance(fn, ast.Assign) and len(fn.targets) == 1 and isinstance(fn.targets[0], ast.Attribute) and fn.targets[0].attr == "terms")
         n_sites += sites
         for fn, node in hits:
-            rep.violation(rule, (m.relpath, fn.name), node, text=f"{fn.name}: {norm(node)}", what="an operator built from another one gets a copy of its term dictionary",
-                          reason=f"`{norm(node)}` stores the other operator's own dictionary: in-place arithmetic on either operator changes both")
+            rep.violation(rule, (m.relpath, fn.name), node, text=f"{fn.name}: {norm(node)[:80]}", what="an operator built from another one gets a copy of its term dictionary",
+                          reason=f"`{norm(node)[:80]}` hands the other operator's own dictionary to the new operator: in-place arithmetic on either operator changes both")
         if sites:
             rep.ok(rule, (m.relpath, "<module>"), None, text=f"{rel}: {sites} assignment(s) to a term dictionary, {len(hits)} sharing it",
                    what="an operator built from another one gets a copy of its term dictionary")
